@@ -83,6 +83,12 @@ func convertToParagraph(data reflect.Value) (*Paragraph, error) {
 			continue
 		}
 
+		if fieldType.PkgPath != "" {
+			/* An unexported field is not written (the decoder could not
+			 * set it). */
+			continue
+		}
+
 		paragraphKey := fieldType.Name
 		if it := fieldType.Tag.Get("control"); it != "" {
 			paragraphKey = it
